@@ -139,20 +139,41 @@ func (w *World) fcStressRound(rng *rand.Rand) {
 		}
 		sendErr <- err
 	}()
-	deadline := time.After(60 * time.Second)
-	select {
-	case err := <-sendErr:
-		if err != nil {
-			w.Violate("C05", "fcstress-send-failed", "send failed: %v", err)
-			return
+	deadline := time.After(20 * time.Second)
+	tick := time.NewTicker(20 * time.Millisecond)
+	defer tick.Stop()
+wait:
+	for {
+		select {
+		case err := <-sendErr:
+			if err != nil {
+				w.Violate("C05", "fcstress-send-failed", "send failed: %v", err)
+				return
+			}
+			break wait
+		case <-tick.C:
+			if rejected.Load() > 0 {
+				w.Violate("C06", "sender-exceeds-window", "flow-control stress (window %d): the receiver rejected a chunk of a sender that only ever got credit for consumed bytes (sent %d, credited %d)", window, sent.Load(), credited.Load())
+				cancel()
+				return
+			}
+			continue
+		case <-deadline:
+			break wait
 		}
-	case <-deadline:
+	}
+	select {
+	case <-sendErr:
+	default:
+	}
+	if sent.Load() < int64(total) {
 		w.Violate("C05", "fcstress-sender-stranded", "flow-control stress (window %d, %d-byte sends): sender stranded after %d of %d bytes (credited %d, consumed %d)", window, msg, sent.Load(), total, credited.Load(), consumed.Load())
+		cancel()
 		return
 	}
 	select {
 	case <-consumerDone:
-	case <-time.After(30 * time.Second):
+	case <-time.After(10 * time.Second):
 		w.Violate("C05", "fcstress-consumer-starved", "consumer received %d of %d bytes", consumed.Load(), total)
 		return
 	}
